@@ -85,6 +85,7 @@ var ruleTextShape = &core.Rule{ID: "R07.2", Min: 4,
 	Doc: "the text detector scans the whole unmodified header from index 0; the only exits are true after the loop and true when the BOM lookup on the unmodified header is non-empty (which precedes the loop); the limit parameter is not consulted",
 	Run: func(c *core.Ctx, s *core.Sink) {
 		cm := getCharset(c)
+		cm.needBOM()
 		_, f := textDetector(c)
 		rs := fde.FindRangeOver(f, f.Params[0])
 		if len(rs) == 0 && loopHeaderOf(f) != nil {
@@ -352,6 +353,7 @@ var rulePlainReturns = &core.Rule{ID: "R11.3", Min: 4,
 	Doc: "plain sniffer: the BOM name is returned before anything else; every return of utf-8 is control dependent on utf8.Valid(...) or on the ASCII test being true; every other non-empty return comes from the Latin fallback",
 	Run: func(c *core.Ctx, s *core.Sink) {
 		cm := getCharset(c)
+		cm.needBOM()
 		p := getPlain(c)
 		f := p.f
 		// BOM first: a call bomFn(param) whose non-empty result is returned, dominating every other call
